@@ -25,6 +25,9 @@ NA = {
 
 # property -> (category, technique, level text, level note, design ref)
 CLAIMED = {
+    "C10": ("model_checking", "bounded translation of the integer kernels' Python source (inspect.getsource at run time) into SMT by the guarded-merge interpreter; z3 over a symbolic argument",
+            "Bounded SMT (CBMC style, unwinding assertions): _factorize(n) and _divisors(n) return exactly the divisors of n, _factorize_imperfect(n) contains the smallest shape of every achievable tile count and nothing above n, _count_factorizations(n, pattern) equals a brute-force chain count, for every n up to 64/48/36/10 (quick) and 256/128/100/14 (thorough) and every loop pattern of length <= 3/4.",
+            "Kernel clauses only: get_possible_factor_sizes itself (coarseness filter, imperfect admit loop over Python sets) is not encoded and is only swept concretely against brute force (outer <= 160/600, all inner divisors) as validation; math.ceil on quotients/square roots is modelled exactly (float exactness below 2^52 assumed).", "4/C10"),
     "C07": ("translation_validation", "four captured representations of every exploration formula (symengine tree, sympy tree, objective formula, lambdified source) proven pairwise equivalent by z3 over the tile-shape box",
             "Translation validation with bounded SMT: the real make_tile_shapes runs on mapper templates (real get_jobs) under four capturing wrappers; for each formula z3 shows symengine tree == sympy tree == Objective.formula == the lambdified function's source for every integer tile assignment in [1, rank bound]^symbols (no divisibility assumed); the formula-vs-concrete-mapping leg is validated by running the real run_model on numeric copies of the template at solver/mapper-chosen assignments.",
             "Reals instead of float32 (the property allows float32 rounding); the lambdified function is read through its source; templates without any valid tile shape are skipped; spatial loops outside.", "4/C07"),
